@@ -367,6 +367,11 @@ func (mq *memtableQueue) renewMutable() {
 	mq.mu.Lock()
 	defer mq.mu.Unlock()
 
+	// Freeze first: a write that has already picked this memtable either completes
+	// before the freeze (and is counted below) or sees it frozen and goes to the new
+	// one; it can never land in a memtable that has been dropped from the queue
+	mq.mutable.freeze()
+
 	if mq.mutable.count() > 0 {
 		mq.rotateNoLock()
 		return
